@@ -1,5 +1,85 @@
+(* C03/Props.v -- pinned property theorems for C03 (two-phase commit agreement); statements in full.
+   `start ctmo parts0` is one coordinator (prepare timeout ctmo) + participants with the given initial stores and
+   lock timeouts; `grun` folds an arbitrary event list: begin, delivery of ANY in-flight message with or without
+   removing it (reordering, duplication, late and duplicate votes), loss, driver commit/abort at any time,
+   cleanup_timeouts at any time, abort broadcast, time passing.  dec / cast / applied / discarded / parts_of are
+   the ghost history fields of the model (Model.v); no step reads them. *)
 From NV.Common Require Import Base LockTable LockTableFacts.
 From NV.C03 Require Import Model Proofs Inst.
 Open Scope N_scope.
-Theorem C03_placeholder : True. Proof. exact I. Qed.
-Print Assumptions C03_placeholder.
+
+(* "the coordinator decides at most once ... and the decision never changes afterwards":
+   any two decisions recorded for one transaction, at any two points of any run, are the same. *)
+Theorem C03_one_decision : forall ctmo parts0 es es' tx b b',
+  let g := grun (start ctmo parts0) es in
+  In (tx, b) (dec g) -> In (tx, b') (dec (grun g es')) -> b = b'.
+Proof. exact one_decision. Qed.
+
+(* "it decides commit only if every participant voted yes": for every participant shard of a committed
+   transaction, that participant answered Yes to a prepare of it. *)
+Theorem C03_commit_only_if_all_yes : forall ctmo parts0 es tx parts sh,
+  let g := grun (start ctmo parts0) es in
+  In (tx, true) (dec g) -> In (tx, parts) (parts_of g) -> In sh parts -> In (tx, sh) (cast g).
+Proof. exact commit_all_yes. Qed.
+
+(* "no participant applies a transaction's writes unless the decision was commit"
+   (and a prepare by itself never changes the store). *)
+Theorem C03_apply_only_after_commit : forall ctmo parts0 es tx sh,
+  let g := grun (start ctmo parts0) es in
+  (In (tx, sh) (applied g) -> In (tx, true) (dec g)) /\
+  (In (tx, false) (dec g) -> ~ In (tx, sh) (applied g)) /\
+  (forall now h p ops, store (fst (p_prepare now h p tx ops)) = store p).
+Proof.
+  intros ctmo parts0 es tx sh g. split; [exact (applied_only_committed ctmo parts0 es tx sh)|].
+  split; [exact (aborted_never_applied ctmo parts0 es tx sh)|]. intros. apply p_prepare_store.
+Qed.
+
+(* "if one participant applied them no participant that voted yes discards them, so the shards never end up
+   split between applied and rolled back". *)
+Theorem C03_no_split : forall ctmo parts0 es tx sh sh',
+  let g := grun (start ctmo parts0) es in
+  In (tx, sh) (applied g) -> In (tx, sh') (discarded g) -> False.
+Proof. exact no_split. Qed.
+
+(* "aborted and timed-out transactions leave every shard's data exactly as it was" -- outside the known class:
+   in every reachable state, aborting tx at a shard where no OTHER transaction committed a write to one of tx's
+   keys since tx's prepare (tx is not `dirty`) leaves every key of that shard's store unchanged. *)
+Theorem C03_abort_leaves_data : forall ctmo parts0 es sh p tx,
+  let g := grun (start ctmo parts0) es in
+  nth_part (ps g) sh = Some p -> ~ In tx (dirty p) ->
+  forall k, aget (store (p_abort p tx)) k = aget (store p) k.
+Proof. exact abort_leaves_data. Qed.
+
+(* the unguarded statement is false of the faithful model (known finding F-C03-undo; the witness is replayed on the
+   implementation by the harness corpus): lock timeout 5 ms, k0 = 5, T1 prepare(Put k0 7), 30 ms, T2 prepare +
+   commit (Put k0 9), then abort(T1) rewrites k0. *)
+Theorem C03_abort_leaves_data_refuted :
+  exists ctmo parts0 es sh p tx k,
+    nth_part (ps (grun (start ctmo parts0) es)) sh = Some p /\
+    aget (store (p_abort p tx)) k <> aget (store p) k.
+Proof. exact abort_leaves_data_refuted. Qed.
+
+(* ---------------------------------------------------------------- non-vacuity *)
+(* a run with a commit decision applied on two shards, a duplicate vote, and an aborted second transaction *)
+Example ex_commit :
+  let g := grun (start 5000 [([(0, 1)], 30000); ([], 30000)])
+             [EBegin [0; 1] [(0, [Put 0 2]); (1, [Put 1 3])] false;
+              EDeliver 0 false; EDeliver 0 false; EDeliver 0 true; EDeliver 0 false; EDeliver 0 false;
+              ECommit 1; EDeliver 0 false; EDeliver 0 false;
+              EBegin [1] [(1, [Put 0 4])] false; EDeliver 0 false; EDeliver 0 false; EAbort 2; EDeliver 0 false] in
+  dec g = [(1, true); (2, false)] /\ applied g = [(1, 1); (1, 0)] /\ discarded g = [(2, 1)] /\
+  cast g = [(2, 1); (1, 1); (1, 0)] /\ map store (ps g) = [[(0, 2)]; [(1, 3)]].
+Proof. vm_compute. repeat split. Qed.
+
+(* the guard of C03_abort_leaves_data is satisfiable with a prepared, non-dirty transaction *)
+Example ex_clean_abort :
+  let g := grun (start 5000 [([(0, 1)], 30000)]) [EBegin [0] [(0, [Put 0 2])] false; EDeliver 0 false] in
+  exists p, nth_part (ps g) 0 = Some p /\ has_prepared p 1 = true /\ ~ In 1 (dirty p).
+Proof. eexists. split; [vm_compute; reflexivity|]. split; [vm_compute; reflexivity|]. vm_compute. tauto. Qed.
+
+Print Assumptions C03_one_decision.
+Print Assumptions C03_commit_only_if_all_yes.
+Print Assumptions C03_apply_only_after_commit.
+Print Assumptions C03_no_split.
+Print Assumptions C03_abort_leaves_data.
+Print Assumptions C03_abort_leaves_data_refuted.
